@@ -202,9 +202,10 @@ func shShapes(thorough bool) []txRecipe {
 
 func init() {
 	p2 := register(&Prop{ID: "C02", Level: "exploration",
-		Rule: "exhaustive product: tx shapes nIn 1..3 x nOut 0..3 x 3/4 boundary value sets (version, locktime, vout, sequence, spent value, output values in {0,1,max,mid}) x output script length {0,25,253} x previous script of the signed input in {empty, 1 byte, contains 0xab, 253 bytes, P2PKH, missing} x previous txid {present, never set} x input index in {0..nIn-1, nIn, nIn+1, 2^32-1} x all 128 hash types with bit 0x40; oracle: preimage byte-identical to the reference FORKID preimage (reference certified on the node's 500 bip143 + 500 legacy vectors at the start of the run), digest = sha256d, errors exactly for missing input/txid/script, ExtendedBytes unchanged. distinct_nontrivial = distinct reference preimages compared",
+		Rule: "exhaustive product: tx shapes nIn 1..3 x nOut 0..3 x 3/4 boundary value sets (version, locktime, vout, sequence, spent value, output values in {0,1,max,mid}) x output script length {0,25,253} x previous script of the signed input in {empty, 1 byte, contains 0xab, 253 bytes, P2PKH, missing} x previous txid {present, never set} x input index in {0..nIn-1, nIn, nIn+1, 2^32-1} x all 128 hash types with bit 0x40; oracle: preimage byte-identical to the reference FORKID preimage (reference certified on the node's 500 bip143 + 500 legacy vectors at the start of the run), digest = sha256d, errors exactly for missing input/txid/script, ExtendedBytes unchanged; plus hash -> in-place edit -> hash sequences (3/4 shapes x hash-type pairs x index pairs x 20 single edits incl. pointer replacement, swaps, append/remove) whose second hash must be that of the edited transaction. distinct_nontrivial = distinct reference preimages compared",
 	})
 	s2 := NewSpace(p2, "forkid", c02Check)
+	NewSpace(p2, "forkid-seq", shSeqCheck)
 	p2.Run = func(r *rep.Run, thorough bool) {
 		if !requireSighashAnchor(r) {
 			return
@@ -241,14 +242,25 @@ func init() {
 				}
 			}
 		})
+		seq := shSeqCases(true, thorough)
+		(&Space[shSeqCase]{P: p2, Name: "forkid-seq", Check: func(c shSeqCase) []rep.Finding {
+			fs := shSeqCheck(c)
+			if len(fs) == 0 {
+				r.Distinct("seq", fmt.Sprint(c))
+			}
+			return fs
+		}}).Slice(r, seq)
+		r.Note("hash_edit_hash_sequences", len(seq))
+		r.Sample("forkid-seq", seq[len(seq)/3])
 		r.Sample("forkid", shCase{R: shapes[len(shapes)/2], ScriptKind: 2, Idx: 1, HT: 0xc3})
 		r.Note("shapes", len(shapes))
 	}
 
 	p3 := register(&Prop{ID: "C03", Level: "exploration",
-		Rule: "exhaustive product: same tx shapes/value sets as C02 x script code of the signed input in {empty, 1 byte, contains OP_CODESEPARATOR bytes (taken verbatim), 253 bytes, P2PKH} x every in-range input index x unlocking scripts {absent, filled} x all 128 hash types without bit 0x40 (incl. base 0 and 4..31, SINGLE with index >= nOut); oracle: preimage byte-identical to the reference original-algorithm serialisation (certified on the node's 500 legacy vectors), digest = sha256d, SINGLE-bug digest = 01 00..00 without error, transaction unchanged. distinct_nontrivial = distinct reference preimages compared",
+		Rule: "exhaustive product: same tx shapes/value sets as C02 x script code of the signed input in {empty, 1 byte, contains OP_CODESEPARATOR bytes (taken verbatim), 253 bytes, P2PKH} x every in-range input index x unlocking scripts {absent, filled} x all 128 hash types without bit 0x40 (incl. base 0 and 4..31, SINGLE with index >= nOut); oracle: preimage byte-identical to the reference original-algorithm serialisation (certified on the node's 500 legacy vectors), digest = sha256d, SINGLE-bug digest = 01 00..00 without error, transaction unchanged; plus the same hash -> in-place edit -> hash sequences as C02 with legacy hash types. distinct_nontrivial = distinct reference preimages compared",
 	})
 	s3 := NewSpace(p3, "legacy", c03Check)
+	NewSpace(p3, "legacy-seq", shSeqCheck)
 	p3.Run = func(r *rep.Run, thorough bool) {
 		if !requireSighashAnchor(r) {
 			return
@@ -288,6 +300,16 @@ func init() {
 				}
 			}
 		})
+		seq := shSeqCases(false, thorough)
+		(&Space[shSeqCase]{P: p3, Name: "legacy-seq", Check: func(c shSeqCase) []rep.Finding {
+			fs := shSeqCheck(c)
+			if len(fs) == 0 {
+				r.Distinct("seq", fmt.Sprint(c))
+			}
+			return fs
+		}}).Slice(r, seq)
+		r.Note("hash_edit_hash_sequences", len(seq))
+		r.Sample("legacy-seq", seq[len(seq)/3])
 		r.Sample("legacy", c03Case{shCase{R: shapes[len(shapes)/2], ScriptKind: 2, Idx: 1, HT: 0x83}, true})
 		r.Note("shapes", len(shapes))
 	}
